@@ -190,6 +190,17 @@ def esc_field(s):
     return "".join(out)
 
 
+def esc_out(s):
+    """the escaping the harness and the driver apply to captured output (`esc` of main.rs / Proto.lean)"""
+    out = []
+    for ch in s:
+        if ch in '\\"() ' or not ("!" <= ch <= "~"):
+            out.append("\\u{%x}" % ord(ch))
+        else:
+            out.append(ch)
+    return "".join(out)
+
+
 def write_cases(cases):
     """cases: list of (id, kind, [fields]) -> TSV text"""
     return "".join("%s\t%s\t%s\n" % (i, k, "\t".join(esc_field(f) for f in fs)) for i, k, fs in cases)
